@@ -2,6 +2,7 @@ package p_timers
 
 import (
 	"testing"
+	"time"
 
 	"pgregory.net/rapid"
 	"verifharness/internal/vstat"
@@ -188,6 +189,18 @@ func TestC13ExitRace(t *testing.T) {
 		t.Skip("timeout hooks unavailable")
 	}
 	st := vstat.For("C13")
+	for i := 0; i < vstat.Pick(30, 150); i++ {
+		idle := time.Duration(40+i%3*20) * time.Millisecond
+		v := RunExitSqueeze(idle)
+		if v != nil && timeBound[v.Sig] {
+			if v2 := RunExitSqueeze(idle); v2 == nil {
+				st.Inconclusivef("%s once in the exit squeeze, passed on re-run", v.Sig)
+				v = nil
+			}
+		}
+		st.Report(t, "TestC13ExitRace", map[string]any{"exit_squeeze_idle_ms": idle.Milliseconds()}, v)
+		st.Case(true, uint64(0xe517)+uint64(idle), func() any { return map[string]any{"exit_squeeze_idle_ms": idle.Milliseconds()} }, "exit_squeeze")
+	}
 	shard, _ := vstat.Shard()
 	for _, idleUs := range vstat.Pick([]int{300}, []int{200, 300, 1000}) {
 		c := ExitRaceCase{IdleUs: idleUs + 13*shard, Attempts: vstat.Pick(4000, 30000), SpanUs: 150}
